@@ -85,6 +85,14 @@ def gen_stream(tape, maxev):
     return lines, bytes(out), terms
 
 
+class HarnessErrorLike(Exception):
+    pass
+
+
+class _Skip(Exception):
+    pass
+
+
 def _dataless_block(lines):
     """a non-empty block (between blank lines) that has an event/id/retry line but no data line"""
     block = []
@@ -135,7 +143,36 @@ def run_case(tape, tier):
     p = hclienting.Respondent(msg=buf, method="GET")
     bounds = [0] + cuts + [len(data)]
     err = None
+    # history: the same Respondent (as the http Client re-uses it) already handled a response on this connection: an
+    # ordinary one with a body, or an earlier event stream that ended; then reinit() as Client.transmit does
+    prior = tape.pick("prior_response", ["none", "none", "ordinary", "sse"])
+    prior_events, prior_id, prior_retry = [], None, None
     try:
+        if prior == "ordinary":
+            buf.extend(b"HTTP/1.1 200 OK\r\nContent-Type: text/plain\r\nContent-Length: 11\r\n\r\nhello world")
+        elif prior == "sse":
+            lines0, stream0, _t0 = gen_stream(tape, 3)
+            buf.extend(b"HTTP/1.1 200 OK\r\nContent-Type: text/event-stream\r\nTransfer-Encoding: chunked\r\n\r\n" +
+                       ("%x\r\n" % len(stream0)).encode() + stream0 + b"\r\n0\r\n\r\n")
+            prior_events, prior_id, prior_retry = sse.dispatch(lines0)
+            if not any(x.split(":")[0] == "id" for x in lines0):
+                prior_id = None
+        if prior != "none":
+            for _ in range(4):
+                if p.parser is not None:
+                    p.parse()
+            if p.parser is not None or buf:
+                raise HarnessErrorLike("prior response not consumed")
+            p.makeParser()
+            p.reinit(method="GET")
+            res.faults["respondent_reused_after_" + prior] += 1
+    except HarnessErrorLike as ex:
+        err = "prior: %s" % ex
+    except Exception as ex:
+        err = "prior response: %s: %s" % (type(ex).__name__, str(ex)[:100])
+    try:
+        if err is not None:
+            raise _Skip()
         for i in range(len(bounds) - 1):
             buf.extend(data[bounds[i]:bounds[i + 1]])
             if p.parser is not None:
@@ -144,10 +181,18 @@ def run_case(tape, tier):
             p.close()
             if p.parser is not None:
                 p.parse()
+    except _Skip:
+        pass
     except Exception as ex:
         err = "%s: %s" % (type(ex).__name__, str(ex)[:100])
     got = [dict(id=e["id"] if e["id"] is not None else "", name=e["name"], data=e["data"]) for e in p.events]
     want, want_id, want_retry = sse.dispatch(lines)
+    if prior == "sse":
+        want = prior_events + want
+        if not any(x.split(":")[0] == "id" for x in lines) and prior_id is not None:
+            want_id = prior_id          # the client keeps tracking the last id it saw (it is what Last-Event-ID would carry)
+        if want_retry is None:
+            want_retry = prior_retry
     res.comparisons = len(want) + 2
     res.steps = len(cuts) + 1
     res.sim_time = float(len(cuts) + 1)
@@ -190,7 +235,7 @@ def run_case(tape, tier):
     if _dataless_block(lines):
         res.probes["block_without_data"] += 1
     ids = [e["id"] for e in want]
-    if len(ids) >= 2 and ids[-1] != "" and not lines[-2].startswith("id") and any(l.startswith("id") for l in lines):
+    if len(ids) >= 2 and len(lines) >= 2 and ids[-1] != "" and not lines[-2].startswith("id") and any(l.startswith("id") for l in lines):
         res.probes["id_persists_across_events"] += 1
     if want_retry is not None:
         res.probes["retry_set"] += 1
